@@ -1,7 +1,8 @@
 // Package c02: after a successful operation the cluster matches the recorded manifest.
 //
 // Monitor: histories of real action.Install/Upgrade/Rollback/Uninstall (gen.DriftCase) run against
-// the simulated API server; between ops an out-of-band actor edits, deletes and (un)protects live
+// the simulated API server (another 15% with an upgrade or rollback whose process is killed
+// after it recorded its pending revision, followed by the recovering rollback: interrupted.go); between ops an out-of-band actor edits, deletes and (un)protects live
 // objects; bystander objects and a second release share the namespace. After every op that
 // reported success while the server rejected nothing, the object store is judged against the
 // manifest recorded in the raw ledger, parsed here with sigs.k8s.io/yaml (not with helm's code):
@@ -56,7 +57,7 @@ func init() {
 	core.Register(&core.Prop{
 		ID:    "C02",
 		Level: "exploration",
-		Rule: "seeded histories of 5-8 real install/upgrade/rollback/uninstall ops (22% deliberately failing: never-ready, hook failure, 500 on the n-th mutation; force/atomic/cleanup-on-fail/max-history on subsets) over 4-5 chart versions drawn from 15 resource slots (typed kinds, two custom kinds, one cluster-scoped; Widget and HorizontalPodAutoscaler move between two served API versions of their group from chart version to chart version; about a third of the namespaced slots get a twin of the same kind and name in a second namespace with its own resource policy) with resource-policy keep/delete/none toggling per version, 0-3 out-of-band edits before each op (field change, field removal, foreign fields, object deletion, keep added/removed), 3-6 bystanders and a second release in the namespace, on memory/secrets/configmaps storage. " +
+		Rule: "seeded histories of 5-8 real install/upgrade/rollback/uninstall ops (22% deliberately failing: never-ready, hook failure, 500 on the n-th mutation; force/atomic/cleanup-on-fail/max-history on subsets) over 4-5 chart versions drawn from 15 resource slots (typed kinds, two custom kinds, one cluster-scoped; Widget and HorizontalPodAutoscaler move between two served API versions of their group from chart version to chart version; about a third of the namespaced slots get a twin of the same kind and name in a second namespace with its own resource policy) with resource-policy keep/delete/none toggling per version, 0-3 out-of-band edits before each op (field change, field removal, foreign fields, object deletion, keep added/removed), 3-6 bystanders and a second release in the namespace, on memory/secrets/configmaps storage; plus 15% as many interrupted histories on secrets/configmaps storage: install, 1-3 upgrades, an upgrade or rollback whose process dies J requests (J = 0..40) after it recorded its pending-upgrade/pending-rollback revision (cluster untouched, partly or fully updated; the revision can no longer be marked failed), the rollback that recovers from it to the previous or any recorded revision, 0-2 further ops. " +
 			"distinct_nontrivial counts distinct (op kind+flags, #created, #patched/replaced, #deleted, #kept, drift kinds applied before the op, last-revision status) shapes among judged successful ops.",
 		Assumptions: []string{
 			"the simulated API server applies create/get/patch(strategic, JSON-merge)/replace/delete like a real API server and stores objects as sent (no defaulting, no admission, no controllers, synchronous deletion)",
@@ -87,6 +88,18 @@ func genCases(seed int64, tier string) []core.Case {
 		dc := gen.NewDriftCase(rng, 5+rng.Intn(4), drv)
 		out = append(out, core.Case{ID: fmt.Sprintf("h%d-%s", h, drv), Data: core.J(caseData{dc})})
 	}
+	// interrupted histories (interrupted.go); own generator, the list above does not depend on them
+	nk := 72
+	if tier == "thorough" {
+		nk = 3600
+	}
+	krng := rand.New(rand.NewSource(seed*130003 + 17))
+	for h := 0; h < nk; h++ {
+		// persistent storage only: the records of the memory driver die with the process (and alias
+		// the release objects the killed op goes on mutating)
+		drv := []string{"secrets", "configmaps"}[h%2]
+		out = append(out, core.Case{ID: fmt.Sprintf("k%d-%s", h, drv), Data: core.J(caseData{newInterruptedCase(krng, drv)})})
+	}
 	return out
 }
 
@@ -110,6 +123,11 @@ func post(a *core.Agg) string {
 	need("resources_moved_to_another_api_version", 20)
 	need("uninstall_same_name_pairs_with_one_keep", 10)
 	need("uninstall_keep_resources_checked", 1)
+	need("ops_interrupted_leaving_a_pending_latest_revision", 30)
+	need("ops_interrupted_before_touching_the_cluster", 5)
+	need("ops_interrupted_after_touching_the_cluster", 5)
+	need("ops_judged_latest_revision_pending", 20)
+	need("stale_resources_checked_latest_revision_pending", 10)
 	if len(msgs) > 0 {
 		return "monitors observed too little: " + strings.Join(msgs, "; ")
 	}
@@ -214,7 +232,14 @@ func run(c core.Case, verbose bool) core.Result {
 		}
 	}
 	var sampleOps []string
+	kills := killPlans(dc)
 	gen.RunDriftHistory(dc, func(w *env.World, o *gen.StepObs) {
+		if o.I == 0 {
+			armKills(w, kills) // no kill plan is ever on the first op
+		}
+		if _, planned := kills[o.Agent]; planned {
+			noteInterrupted(&res, o)
+		}
 		res.Evals++
 		res.Stat("ops_executed", 1)
 		res.Stat("requests_observed", int64(len(o.Events)))
@@ -287,6 +312,9 @@ func judgeApply(res *core.Result, o *gen.StepObs, detail func() string, verbose 
 		return
 	}
 	res.Stat("ops_judged", 1)
+	if strings.HasPrefix(lastStatus(o.L0), "pending-") {
+		res.Stat("ops_judged_latest_revision_pending", 1)
+	}
 	newDocs, problems := ref.ParseManifest(top.Manifest, gen.DriftNS)
 	for _, p := range problems {
 		res.Add("manifest-unparseable", opClass(op), "%s | %s", p, detail())
@@ -371,6 +399,9 @@ func judgeApply(res *core.Result, o *gen.StepObs, detail func() string, verbose 
 				continue
 			}
 			res.Stat("stale_resources_checked", 1)
+			if strings.HasPrefix(last, "pending-") {
+				res.Stat("stale_resources_checked_latest_revision_pending", 1)
+			}
 			pol, _ := ref.LiveAnnotation(before, ref.PolicyAnno)
 			_, present := o.S1[d.Key]
 			cause := "latest revision before the op was the deployed one"
